@@ -386,7 +386,7 @@ Proof.
   - eapply IH; eauto.
   - (* JustCfg *) destruct (just_sem K toks spn (val_toks (cval ctx)) p a) as [[p1|] a1] eqn:E; [|discriminate].
     injection H as <- <- <- <-. apply just_sem_ext in E. destruct E as [E|[_ ->]]; lia.
-  - eapply IH; eauto.
+  - (* Memo *) ext_crush IH.
   - eapply IH; eauto.
   - destruct (nth_error (crec ctx) k); [eapply IH; eauto|discriminate].
   - (* Pratt *) eapply (proj1 (pratt_ext _ IH g ops ctx n)); eauto.
